@@ -5,8 +5,8 @@ LEVEL = "proof"
 RULE = ('tagged PretextView-model maps (painted scaffolds incl. equal sizes, 0..k unlocs and haplotigs, sex/B tags, one or two haplotypes) x input assemblies. Non-trivial = distinct (kind, #pieces, #autosomes, #unlocs, #haplotigs | error).')
 TRUSTED = ['correspondence harness props/C10.py + remap_lib.py: real BuildAssembly pipeline vs Lean `remap` on the projection `proj_names`', 'modelled not verified: Python dict/set/sort semantics as in Model/Py.lean; object identity by object ids; PretextView edit-script model (spec side)']
 ASSUMPTIONS = ['input names outside the generated <prefix>.., H_.., Scaffold_.. namespaces (generator)', 'consistent tagging as generated']
-LEVEL_NOTE = 'proved over the model: counters (H_n, _unloc_n without holes), rename_by_size, chromosome csv, and for single-haplotype maps the whole numbering/uniqueness/order chain (G1–G5: `numbering_single`, `names_unique_autosomes`, `output_order`, `unloc_directly_after`); several-haplotype grouping theorems in progress (Properties/C10Multi.lean when registered) and otherwise decided by correspondence on names/ranks/order/csv + the direct oracle (`twohap` stream)'
-EXPLANATION = 'naming theorems (counters, rename_by_size, ChrNamer single-haplotype) over the model; tie by correspondence on names/ranks/order/csv; oracle = direct statement.'
+LEVEL_NOTE = "proved over the model: counters (H_n, _unloc_n without holes), rename_by_size, chromosome csv; single-haplotype maps: the whole numbering/uniqueness/order chain (`numbering_single`, `names_unique_autosomes`, `output_order`, `unloc_directly_after`); several haplotypes (Properties/C10Multi.lean): `build_groups_multi` (grouping = explicit segmentation, fails only for a missing Pretext name), `group_errors_multi`, `numbering_multi` (groups numbered 1..n by non-increasing FIRST-haplotype length, stable), `homologues_share_number`, `names_unique_multi` (per haplotype); side condition everywhere: the Pretext scaffold name does not occur inside `_unloc_<k>` (`name_group_replace_counterexample`); the link from `remap`'s output to the namer's input list is `assemblies_fused_single/_multi`; tie = correspondence on names/ranks/order/csv; direct oracle incl. `twohap` stream"
+EXPLANATION = 'naming theorems (counters, rename_by_size, ChrNamer with one or several haplotypes, uniqueness, output order, csv) over the model; tie by correspondence on names/ranks/order/csv; oracle = direct statement.'
 PROJ = R.proj_names
 
 
